@@ -16,19 +16,20 @@ RULE = ('random lenses x one metamorphic relation each: mirror about the xz-plan
         'lenses), tilt of a spherical surface about its own centre of curvature by up to 0.3 rad (identical explicit rays), '
         'dummy plane between equal media at a random gap, wavelength change on a dispersion-free lens, all lengths x s with '
         's in [0.01,100] (rebuilt from the scaled spec), and Optic.scale_system(s) vs the lens built from the scaled spec '
-        '(planes/conics, angular fields); non-trivial = >= 2 powered surfaces and >= 5 finite rays at the image; '
+        '(planes/conics, angular fields), and a lens edited (set_index/set_radius/set_conic/set_thickness) after its first use vs the '
+        'edited prescription built from scratch; non-trivial = >= 2 powered surfaces and >= 5 finite rays at the image; '
         'distinct = distinct case hash')
 TIERS = {'quick': dict(shards=8, cases=150), 'thorough': dict(shards=16, cases=2500)}
 MIN_NONTRIVIAL = {'quick': 400, 'thorough': 4000}
 MIN_EVALS = {'mirror-symmetry': 30, 'tilt-about-centre-of-curvature': 20, 'dummy-surface': 20, 'wavelength-invariance': 20,
-             'length-scaling': 20, 'scale_system-prescription': 15, 'scale_system-rays': 15, 'length-scaling-seidel-f2': 15}
+             'length-scaling': 20, 'scale_system-prescription': 15, 'scale_system-rays': 15, 'length-scaling-seidel-f2': 15, 'edited-equals-rebuilt': 15}
 ASSUMPTIONS = ['comparisons at 1e-9 relative to the system scale (closed-form surfaces) or the surface intersection tolerance (iterated shapes)',
                'the tilt relation launches identical explicit rays because ray aiming legitimately sees the moved vertex through the paraxial model']
 ANCHORS = [('optiland.rays.real_rays', 'RealRays.rotate_x'), ('optiland.rays.real_rays', 'RealRays.rotate_y'),
            ('optiland.rays.real_rays', 'RealRays.rotate_z'), ('optiland.coordinate_system', 'CoordinateSystem.localize'),
            ('optiland.coordinate_system', 'CoordinateSystem.globalize'), ('optiland.optic', 'Optic.scale_system'),
            ('optiland.physical_apertures', 'RadialAperture.scale'), ('optiland.rays.ray_generator', 'RayGenerator.generate_rays')]
-RELS = ['mirror', 'tilt', 'dummy', 'wavelength', 'scale', 'scale_system']
+RELS = ['mirror', 'tilt', 'dummy', 'wavelength', 'scale', 'scale_system', 'edited']
 
 
 def gen_case(rng, tier, i):
@@ -54,6 +55,10 @@ def gen_case(rng, tier, i):
     case['Hy'] = float(rng.choice([0.0, 1.0, rng.uniform(-1, 1)]))
     case['Hx'] = float(rng.uniform(-0.5, 0.5)) if rel == 'mirror' else 0.0
     K = len(spec['surfaces'])
+    if rel == 'edited':
+        case['edits'] = L.gen_edits(rng, spec)
+        if not case['edits']:
+            return None
     if rel == 'mirror':
         case['which'] = str(rng.choice(['x', 'y', 'xy']))
     elif rel == 'tilt':
@@ -204,6 +209,18 @@ def check_case(case, rec):
         B = records(lens)
         cmp_records(rec, 'mirror-symmetry', A, B, scale, tol, f'mirroring field and pupil about {w} does not mirror the ray coordinates',
                     sx=sx, sy=sy)
+    elif rel == 'edited':
+        # the lens has been used (trace above + pupil queries), is now edited through the public setters, and must behave
+        # like a lens built from scratch with the edited prescription (same description reached by another route)
+        lens.paraxial.EPL(); lens.paraxial.EPD(); lens.paraxial.f2()
+        sp2 = L.apply_edits(lens, spec, case['edits'])
+        lens.trace_generic(Hx.copy(), Hy.copy(), Px.copy(), Py.copy(), wl)
+        B = records(lens)
+        fresh = L.build(sp2)
+        fresh.trace_generic(Hx.copy(), Hy.copy(), Px.copy(), Py.copy(), wl)
+        A2 = records(fresh)
+        cmp_records(rec, 'edited-equals-rebuilt', A2, B, scale, tol,
+                    f'a lens edited by {case["edits"]} after its first use traces differently from the same prescription built from scratch')
     elif rel == 'wavelength':
         wls = [w_[0] for w_ in spec['wavelengths'] if w_[0] != wl]
         lens.trace_generic(Hx.copy(), Hy.copy(), Px.copy(), Py.copy(), wls[0])
